@@ -43,6 +43,19 @@ class _Raised(Exception):
     pass
 
 
+def _own_yield(fd: ast.AST) -> bool:
+    """fd's own body yields (yields of functions nested in it make those generators, not fd)."""
+    stack = list(getattr(fd, "body", []))
+    while stack:
+        n = stack.pop()
+        if isinstance(n, (ast.Yield, ast.YieldFrom)):
+            return True
+        if isinstance(n, (ast.FunctionDef, ast.AsyncFunctionDef, ast.Lambda, ast.ClassDef)):
+            continue
+        stack.extend(ast.iter_child_nodes(n))
+    return False
+
+
 class Interp:
     def __init__(self, env: dict[str, Any], max_steps: int = 2000, behaviours: tuple = ()):
         # exceptions of evaluated expressions that count as behaviour of the extracted code (raised to its handlers)
@@ -87,7 +100,7 @@ class Interp:
             vals.update(kwargs)
             env.update(vals)
             sub = Interp(env, outer.max_steps, outer.behaviours[3:])
-            is_gen = any(isinstance(x, (ast.Yield, ast.YieldFrom)) for st in fd.body for x in ast.walk(st))
+            is_gen = _own_yield(fd)
             try:
                 sub.run(fd.body)
             except _Return as r:
@@ -290,7 +303,16 @@ def module_env(prog: Any, module: Any, base: dict[str, Any], interp_kwargs: dict
                 try:
                     env[tg.id] = const_eval(prog, module, st.value)
                 except Exception:
-                    pass
+                    # a value built by a pure standard-library call from constants (a pattern compiled once at module level)
+                    v = st.value
+                    if isinstance(v, ast.Call) and isinstance(v.func, ast.Attribute) and isinstance(v.func.value, ast.Name) and v.func.value.id in PURE_STDLIB:
+                        try:
+                            import importlib
+                            args = [const_eval(prog, module, a) for a in v.args]
+                            kws = {k.arg: const_eval(prog, module, k.value) for k in v.keywords if k.arg}
+                            env[tg.id] = getattr(importlib.import_module(v.func.value.id), v.func.attr)(*args, **kws)
+                        except Exception:
+                            pass
     return env
 
 
